@@ -2426,6 +2426,34 @@ theorem ginv_key_facts {st : St} (hG : GInv st) :
     cases c <;> simp [Tok.isObj] at hco
     exact ⟨_, _, hget⟩
 
+/-- **C06 (text half), the grammar of accepted tapes** — for EVERY input the text parser accepts,
+the tape is derivable in the tree grammar `Gr` from index 0 as an object body (`Gr (.body x) T 0`).
+The derivation contains one sub-derivation per container token, so it says for every `Object`
+token (`Gr.obj`) that its body — the tokens between it and the `End` its `end` field points to,
+which points back — is a `.body`: `key [Operator] value` groups (`Gr.bfield`: the key is an
+`Unquoted` / `Quoted` / `Parameter` / `UndefinedParameter` token, the optional operator ONE `Operator`
+token, the value a `.val`), then nothing, or the FIRST `MixedContainer` followed by a value list
+(`Gr.bmixed`); an `Object` flagged mixed does reach its `MixedContainer`.  A `.val` is a quoted or
+unquoted scalar (`Gr.scal`), an `Array` with a value list as body (`Gr.arr`), an `Object`, or a `Header`
+directly followed by an `Array` / `Object` (`Gr.hdr`).  Value lists (`.items`: array bodies and the
+part behind a `MixedContainer`) hold values and — only there — bare `Operator`, `MixedContainer`,
+parameter and scalar tokens (`Gr.itok`, `Tok.isItem`).  The phases "after the key", "after the
+operator", "after the header" of the loop are the pending tokens of `BStrict` in the invariant
+`GInv` this is proved from (`parse_gr`).
+Index forms: every `Header` token is directly followed by a container (`HInv`), and the executable
+walk `Dom.wfTape` succeeds (root body and the body of every `Object` token). -/
+theorem C06_text_object_grammar (input : Bytes) (T : List Tok) (b : Bool) (h : parse input = .ok T b) :
+    (∃ x, Gr (.body x) T 0) ∧ HInv T ∧ Dom.wfTape (toDomTape T) = true := by
+  obtain ⟨x, hx⟩ := parse_gr input T b h
+  obtain ⟨h1, h2⟩ := C17_parsed_tape_links input T b h
+  obtain ⟨h3, h4⟩ := gr_objects hx
+  exact ⟨⟨x, hx⟩, parse_hinv input T b h, by simp only [Dom.wfTape, h1, h2, h3, h4, Bool.and_self]⟩
+
+/-- `x={a=rgb{1} b c <2}`: header field, then the array part with an operator -/
+example : (match parse [120, 61, 123, 97, 61, 114, 103, 98, 123, 49, 125, 32, 98, 32, 99, 32, 60, 50, 125] with
+    | .ok T _ => T.length == 13
+    | _ => false) = true := by decide +kernel
+
 /-- **C17 hypothesis for ALL inputs**: every tape the text parser model accepts satisfies the
 structural hypothesis `Dom.wfTape` of the DOM / JSON / writer theorems: links both ways, nothing
 at index 0, a header is followed by a container, stack-pass nesting, and every object body — the
